@@ -254,7 +254,10 @@ impl<'a> Import<'a, &'a str, PathBuf> {
         if !rel.is_relative() {
             Err("non-relative path")?
         }
-        rel.set_extension(ext);
+        // add the extension only if the path does not have one already
+        if rel.extension().is_none() {
+            rel.set_extension(ext);
+        }
 
         #[cfg(target_os = "windows")]
         let home = "USERPROFILE";
